@@ -80,7 +80,25 @@ def check_eliminations(ck, R, facts, table):
             if rebuilt and not e.get("rebuilds_ok"):
                 ck.bad(R, key, "%s: the arm for %s rebuilds an Expr::%s node (%s), so the form survives the pass that is supposed to remove it" % (f.short, v, v, rebuilt[0]), rebuilt[0])
                 continue
-            ck.ok(R, key, {"variant": v, "eliminated_by": f.short})
+            # pass-through: the arm hands its input node back unchanged (the form survives although nothing is rebuilt)
+            passthrough = None
+            for b in region:
+                av = arm_variants_of_block(cov, b)
+                if av is None or v not in av:
+                    continue
+                for s in f.bb[b]["s"]:
+                    if s[KIND] == "a" and s[4][0] == 0 and not s[4][1] and s[5][0] == "use" and s[5][1][0] in ("cp", "mv") and not s[5][1][1][1] and 1 <= s[5][1][1][0] <= f.d.get("argc", 0):
+                        passthrough = f.where(s)
+            guard_ok = False
+            if passthrough and e.get("passthrough_guard"):
+                # the pass-through is sound only while the type checker rejects the form in that position: the guard
+                # must be an entry of tables/admission.toml (verified by rule C03.admission on every run)
+                with open(os.path.join(HERE, "tables", "admission.toml"), "rb") as fh:
+                    guard_ok = any(g["error"] == e["passthrough_guard"] for g in tomllib.load(fh).get("guard", []))
+            if passthrough and not guard_ok:
+                ck.bad(R, key, "%s: the arm for %s returns its input node unchanged (%s), so the form survives the pass that is supposed to remove it and reaches the stage that aborts on it" % (f.short, v, passthrough), passthrough)
+                continue
+            ck.ok(R, key, {"variant": v, "eliminated_by": f.short, **({"passes_through_guarded_by": e.get("passthrough_guard")} if passthrough else {})})
             ok[(enum, v)] = True
     return ok
 
